@@ -84,15 +84,20 @@ static void add(int kind, int a, int b) { EV[NEV].kind = (uint8_t)kind; EV[NEV].
 static void build_alphabet(void)
 {
     static const int NID[] = { 0, 1, 127, 128, 254, 255 }, BIDX[] = { 0, 4, 5, 8, 9, 10 }, NMTCS[] = { 130, 129, 1, 2, 128 };
-    int noidn = mc_opt("noidn", 0), nosel = mc_opt("nosel", 0), small = mc_opt("small", 0);
+    /* --opt part=1: addressing sub-alphabet (no configuration services), part=2: configuration sub-alphabet (no
+     * selective / identify sequences); both close quickly, the full alphabet (part=0) is explored to a depth bound
+     * (thorough: fixpoint).  The two halves interact only through the LSS state, which both contain. */
+    int part = mc_opt("part", 0);
+    int addr = (part != 2), conf = (part != 1);
+    int small = mc_opt("small", 0);     /* fewer argument values: one valid node id besides 255, one valid bit rate */
     NEV = 0;
     add(K_SG, 0, 0); add(K_SG, 1, 0);
-    if (!nosel) for (int k = 0; k < 4; k++) for (int c = 0; c < 3; c++) { if (small && c == 1) continue; add(K_SEL, k, c); }   /* c: 0 match, 1 match-1, 2 match+1 */
-    if (!noidn) for (int k = 0; k < 6; k++) for (int c = 0; c < 3; c++) { if (small && c == (k == 3 || k == 5 ? 2 : 1)) continue; add(K_IDN, k, c); }
-    for (unsigned i = 0; i < 6; i++) { if (small && (NID[i] == 128 || NID[i] == 254)) continue; add(K_NODEID, NID[i], 0); }
-    for (int t = 0; t < 2; t++) for (unsigned i = 0; i < 6; i++) { if (small && (t == 1 ? i != 0 : (BIDX[i] == 9 || BIDX[i] == 0))) continue; add(K_BIT, t, BIDX[i]); }
+    if (addr) for (int k = 0; k < 4; k++) for (int c = 0; c < 3; c++) add(K_SEL, k, c);       /* c: 0 match, 1 match-1, 2 match+1 */
+    if (addr) for (int k = 0; k < 6; k++) for (int c = 0; c < 3; c++) add(K_IDN, k, c);
+    if (conf) for (unsigned i = 0; i < 6; i++) { if (small && (NID[i] == 1 || NID[i] == 254)) continue; add(K_NODEID, NID[i], 0); }
+    if (conf) for (int t = 0; t < 2; t++) for (unsigned i = 0; i < 6; i++) { if (small && (t ? BIDX[i] != 4 : (BIDX[i] == 0 || BIDX[i] == 8 || BIDX[i] == 9))) continue; add(K_BIT, t, BIDX[i]); }
     add(K_ACT, 0, 0); add(K_ACT, 2, 0);
-    add(K_STORE, 0, 0); add(K_STORE, 1, 0);                       /* a: the application's store callback fails */
+    if (conf) { add(K_STORE, 0, 0); add(K_STORE, 1, 0); }         /* a: the application's store callback fails */
     for (int k = 0; k < 5; k++) add(K_INQ, 90 + k, 0);
     add(K_NONCFG, 0, 0);
     add(K_UNKNOWN, 5, 0);                                         /* command specifier 05h: reserved in CiA 305 */
@@ -256,7 +261,7 @@ static void side_probe_after_reset(uint8_t old_pn, uint32_t old_pb)
     w_save(Snap);
     w_obs_clear();
     w_rx8(&Node, LSS_RX, 94, 0, 0, 0, 0, 0, 0, 0);
-    M.mode = (OBS.ntx == 1 && OBS.tx[0].id == LSS_TX && OBS.tx[0].d[0] == 94) ? 1 : 0;
+    int mode = (OBS.ntx == 1 && OBS.tx[0].id == LSS_TX && OBS.tx[0].d[0] == 94) ? 1 : 0;
     w_restore(Snap);
     w_obs_clear();
     w_rx8(&Node, LSS_RX, 4, 1, 0, 0, 0, 0, 0, 0);
@@ -264,8 +269,9 @@ static void side_probe_after_reset(uint8_t old_pn, uint32_t old_pb)
     w_rx8(&Node, LSS_RX, 23, 0, 0, 0, 0, 0, 0, 0);
     int n; const WCb *c = find_cb(CB_LSS_STORE, &n);
     uint32_t pb = c ? c->a : 0; uint8_t pn = c ? (uint8_t)c->b : 0;
-    w_restore(Snap);
+    w_restore(Snap);                                               /* (restores the model as well: assign afterwards) */
     OBS = ObsKeep;
+    M.mode = (uint8_t)mode;
     mc_log("    side probe: LSS state after the reset = %s, store would pass (baud %u, node %u)\n", M.mode ? "configuration" : "waiting", pb, pn);
     if (n != 1) { mc_fail("lss-store-args", "after the reset, switch-global(configuration) + store called the store callback %d times", n); return; }
     if (pn != 0 && pn != old_pn && pn != M.act_node) { mc_fail("lss-store-args", "after the reset a store passes node id %u (pending before the reset %u, active %u)", pn, old_pn, M.act_node); return; }
